@@ -108,7 +108,7 @@ CLAIMS = {
         text="Deductive proof of: every blocking select in the hubs has a receive case on ctx.Done() and returns ctx.Err() through it (non-nil once Done is closed); Receive/ServeAsk return nil only after the callback was called; "
              "a hub Deliver returns nil only through its rendezvous send and then waits for the request's done channel, which only the receiver closes, after its callback.",
         design_ref="DESIGN.md section 5, C13 and section 10",
-        note=TRUST + "Exactly-one-receiver under races is a property of Go's channel semantics and is assumed; udpswarm.Receive ignoring its context (DESIGN.md section 6, row 17) is not covered by this check.",
+        note=TRUST + "Exactly-one-receiver under races is a property of Go's channel semantics and is assumed. udpswarm.Receive blocks in a socket read that no cancellation wakes: reported as KNOWN-FINDING on every run.",
     ),
     "C15": dict(
         category="proof",
